@@ -1,7 +1,7 @@
 (** C17 — the useful-peer list is a bounded most-recently-used list.
     Specification (per document, oldest first): registering [p] turns the list [ps] into
     [lastn cap (without p ps ++ [p])]. [get_sync_peers] returns its reverse. *)
-From ID Require Import Model.StoreOps Proofs.PeersFacts.
+From ID Require Import Model.StoreOps Proofs.PeersFacts Proofs.CapFacts.
 
 (** Any sequence of registrations for an existing document with strictly increasing clock
     readings (here: consecutive), starting from any state that satisfies the table invariant
@@ -37,8 +37,18 @@ Example C17_nonvacuous :
   get_cap T 7 <> None /\ vinv 1 (peers_of T 7) /\ N.of_nat (length (peers_of T 7)) <= 5.
 Proof. vm_compute. repeat split; try discriminate; repeat constructor. Qed.
 
+(** the peer list (like every per-document setting) survives reopening the store, with or without a
+    rebuild of the derived tables *)
+Theorem C17_survives_reopen : forall ks EH MF CAP s o, (o = SReopen \/ exists l b, o = SWipeReopen l b) ->
+  let T' := s_tables (fst (store_step ks EH MF CAP s o)) in
+  forall ns, get_sync_peers T' ns = get_sync_peers (s_tables s) ns /\
+             get_policy T' ns = get_policy (s_tables s) ns /\
+             get_cap T' ns = get_cap (s_tables s) ns.
+Proof. exact reopen_keeps_settings. Qed.
+
 Print Assumptions C17_peers_mru.
 Print Assumptions C17_spec_step_props.
 Print Assumptions C17_get_sync_peers_is_reverse.
 Print Assumptions C17_register_unknown_fails.
 Print Assumptions C17_nonvacuous.
+Print Assumptions C17_survives_reopen.
